@@ -1,0 +1,57 @@
+//go:build verif
+
+package sessiontracker
+
+import (
+	"sort"
+	"time"
+
+	"github.com/elastic/go-libaudit/v2/aucoalesce"
+
+	"github.com/metal-toolbox/audito-maldito/internal/common"
+)
+
+// VerifSession is a read-only projection of one tracked audit session.
+type VerifSession struct {
+	ID     string
+	SrcPID int
+	HasRUL bool
+	Login  common.RemoteUserLogin
+	Cached []*aucoalesce.Event
+	Added  time.Time
+}
+
+// VerifState is a read-only projection of the tracker's state.
+type VerifState struct {
+	Sessions []VerifSession
+	Logins   []common.RemoteUserLogin
+}
+
+// VerifSnapshot returns a projection of the tracker's state, sorted by
+// session ID and PID. It only reads.
+func (o *sessionTracker) VerifSnapshot() VerifState {
+	var st VerifState
+
+	o.sessIDsToUsers.Iterate(func(id string, u *user) bool {
+		st.Sessions = append(st.Sessions, VerifSession{
+			ID:     id,
+			SrcPID: u.srcPID,
+			HasRUL: u.hasRUL,
+			Login:  u.login,
+			Cached: append([]*aucoalesce.Event(nil), u.cached...),
+			Added:  u.added,
+		})
+
+		return true
+	})
+
+	o.pidsToRULs.Iterate(func(_ int, rul common.RemoteUserLogin) bool {
+		st.Logins = append(st.Logins, rul)
+		return true
+	})
+
+	sort.Slice(st.Sessions, func(i, j int) bool { return st.Sessions[i].ID < st.Sessions[j].ID })
+	sort.Slice(st.Logins, func(i, j int) bool { return st.Logins[i].PID < st.Logins[j].PID })
+
+	return st
+}
